@@ -204,8 +204,13 @@ class _LibrationDynamicsService(_DynamicsServiceBase):
         cache_key = self.make_key(id(self.domain_obj), tuple(sorted(options.to_dict().items())))
 
         def _factory() -> StabilityPipeline:
-            self.generator.compute(self.domain_obj, options=options)
-            return self.generator
+            # The pipeline object holds the results of its last computation, so
+            # every cached entry needs its own pipeline: sharing self.generator
+            # made all entries show the most recently computed options.
+            pipeline = StabilityPipeline.with_default_engine(
+                config=self.eigendecomposition_config, interface=_LibrationPointInterface())
+            pipeline.compute(self.domain_obj, options=options)
+            return pipeline
 
         return self.get_or_create(cache_key, _factory)
 
